@@ -136,6 +136,11 @@ type Instance struct {
 func (c *CloudProvider) GetInstance(node *v1.Node) (cloudprovider.Instance, error) {
 	var instance *Instance
 
+	// a node may register before its provider ID is set (or carry a malformed one)
+	if len(strings.Split(node.Spec.ProviderID, "/")) < 5 {
+		return nil, fmt.Errorf("node %v has no usable provider ID: %q", node.Name, node.Spec.ProviderID)
+	}
+
 	id := providerIDToInstanceID(node.Spec.ProviderID)
 
 	input := &ec2.DescribeInstancesInput{
